@@ -58,6 +58,12 @@ class RuleResult:
                 fi = repo.func(f.function)
             except Exception:      # noqa: BLE001  (class-level or synthetic function names)
                 continue
+            nm0 = fi.name
+            if nm0.startswith('_') and not (nm0.startswith('__') and nm0.endswith('__')) and \
+                    not getattr(fi, 'absorbed', False):
+                raise AnalysisError('%s: %s is a private helper that is analysed on its own (some call site could not '
+                                    'be inlined): what its callers establish before the call is not visible, `%s` '
+                                    'cannot be decided there' % (self.rule, f.function, f.construct[:60]))
             for n in ast.walk(fi.node):
                 why = None
                 if isinstance(n, ast.Call) and isinstance(n.func, ast.Name) and \
@@ -76,7 +82,7 @@ class RuleResult:
                             _package_defines(repo, nm):
                         why = 'a call to the private helper %s(), which was not inlined,' % nm
                 if why:
-                    raise AnalysisError('%s: %s contains %s that is not written out; `%s` cannot be decided there'
+                    raise AnalysisError('%s: %s contains %s not written out in the analysed body; `%s` cannot be decided there'
                                         % (self.rule, f.function, why, f.construct[:60]))
 
     def check_floor(self):
